@@ -7,6 +7,7 @@ export GOFLAGS=-mod=mod GOPROXY=off GOSUMDB=off GOTOOLCHAIN=local
 SRC=$1; NAME=$2; shift 2; PROPS="$@"
 OUT=/verif/seeded/$NAME
 WT=/tmp/wtv_$NAME
+if [ -n "$(git -C /repo status --porcelain)" ]; then echo "/repo has uncommitted changes: commit them first (the seed is undone with git checkout -- .)"; exit 2; fi
 mkdir -p $OUT
 cp $SRC/patch.diff $OUT/patch.diff
 cp $SRC/demo_test.go $OUT/demo_test.go
